@@ -226,10 +226,10 @@ var scenarios = []scenario{
 			s.opWrite(f, b*4096, uint32(len(d)), 2, d)
 		}
 		for i, b := range blocks {
-			s.opWrite(f, b*4096, 100, uint32(i%3), pat(0x11, 100))      // aligned, short
-			s.opWrite(f, b*4096+200, 50, 2, pat(0x22, 50))               // unaligned, short
-			s.opWrite(f, b*4096+4000, 200, 2, pat(0x33, 200))            // across the block boundary
-			s.opWrite(f, (b+1)*4096, 4095, 2, pat(0x44, 4095))           // aligned, one byte short of a block
+			s.opWrite(f, b*4096, 100, uint32(i%3), pat(0x11, 100)) // aligned, short
+			s.opWrite(f, b*4096+200, 50, 2, pat(0x22, 50))         // unaligned, short
+			s.opWrite(f, b*4096+4000, 200, 2, pat(0x33, 200))      // across the block boundary
+			s.opWrite(f, (b+1)*4096, 4095, 2, pat(0x44, 4095))     // aligned, one byte short of a block
 			s.opRead(f, b*4096, 2*4096)
 		}
 		s.opCommit(f, 0, 0)
